@@ -180,6 +180,95 @@ pub fn deliver(which: Which, ex: &Exchange, c_isn: u32, s_isn: u32, order: &[Dat
     Ok(out)
 }
 
+/// The HTTP analyzer's parallel mode: the same delivery through the worker pool that
+/// `HuginnNetHttp::with_config` + `init_pool` builds (2..8 workers), one frame at a time, each
+/// awaited at the worker's `WorkerProcessed` point.  Both directions of the connection must reach
+/// the same reassembly state whatever the worker count, so the pool has to report exactly the
+/// baseline's request and response.
+pub struct PoolLane {
+    h: crate::pool::Handle,
+    queued: u64,
+    pub workers: usize,
+    pub used: u64,
+}
+
+impl PoolLane {
+    pub fn new(r: &mut Rng) -> Option<PoolLane> {
+        let workers = 2 + r.usize(7);
+        let cfg = crate::pool::PoolCfg { workers, queue: 16, batch: *r.pick(&[1usize, 4, 32]), timeout_ms: 1, max_conn: 64, with_db: false };
+        crate::pool::reset_log(0, 0);
+        let h = if r.chance(1, 2) {
+            crate::pool::Handle::new_via_analyzer(crate::pool::PoolKind::Http, &cfg, crate::pool::Filters::none())
+        } else {
+            crate::pool::Handle::new(crate::pool::PoolKind::Http, &cfg, crate::pool::Filters::none())
+        };
+        h.ok().map(|h| PoolLane { h, queued: 0, workers, used: 0 })
+    }
+    /// None: inconclusive (frame not queued / pool stalled)
+    fn deliver(&mut self, ex: &Exchange, c_isn: u32, s_isn: u32, order: &[DataSeg]) -> Option<(Vec<String>, Vec<String>)> {
+        let mut s = Script::new(ex.ep.clone(), ex.link, c_isn, s_isn);
+        s.handshake();
+        let mut frames = s.frames.clone();
+        for d in order {
+            let (seq, ack) = if d.from_client {
+                (c_isn.wrapping_add(1).wrapping_add(d.offset as u32), s_isn.wrapping_add(1))
+            } else {
+                (s_isn.wrapping_add(1).wrapping_add(d.offset as u32), c_isn.wrapping_add(1))
+            };
+            frames.push(s.seg(d.from_client, seq, ack, flags::ACK | flags::PSH, vec![], &d.bytes));
+        }
+        let _ = self.h.drain_results();
+        for f in frames {
+            if !self.h.dispatch(f) {
+                return None;
+            }
+            self.queued += 1;
+            if self.h.wait_drain(self.queued, std::time::Duration::from_secs(30)) != crate::pool::Drain::Complete {
+                // a frame that never reaches the processed point: the comparison below reports what is missing
+                self.queued = crate::pool::log().processed.load(std::sync::atomic::Ordering::SeqCst);
+            }
+        }
+        self.used += 1;
+        let mut reqs = Vec::new();
+        let mut ress = Vec::new();
+        for l in self.h.drain_results().into_iter().flatten() {
+            if l.starts_with("httpreq") {
+                reqs.push(l);
+            } else if l.starts_with("httpres") {
+                ress.push(l);
+            }
+        }
+        Some((reqs, ress))
+    }
+    pub fn shutdown(&self) {
+        self.h.shutdown();
+    }
+}
+
+fn judge_pool(ctx: &mut Ctx, lane: &mut PoolLane, j: &Judge, tag: &str, c_isn: u32, s_isn: u32, order: &[DataSeg]) {
+    let started = std::time::Instant::now();
+    let Some((reqs, ress)) = lane.deliver(j.ex, c_isn, s_isn, order) else {
+        ctx.inconclusive("pool lane: a frame was not queued");
+        return;
+    };
+    if started.elapsed().as_secs() >= 5 {
+        ctx.inconclusive("pool lane: delivery exceeded 5 s of wall time");
+        return;
+    }
+    let ok = reqs == j.base.reqs && ress == j.base.ress;
+    ctx.judge(ok, &[], "HTTP worker pool: reported request/response depends on segmentation, sequence origin, arrival order or worker count", || {
+        json!({
+            "case": tag, "workers": lane.workers, "lane_deliveries_before": lane.used, "pool_stats": format!("{:?}", lane.h.stats()),
+            "frames_queued": lane.queued, "frames_processed": crate::pool::log().processed.load(std::sync::atomic::Ordering::SeqCst), "endpoints": j.ex.ep.key(), "http2": j.ex.h2, "client_isn": c_isn, "server_isn": s_isn,
+            "delivery": order.iter().map(|d| json!({"dir": if d.from_client {"c"} else {"s"}, "offset": d.offset, "len": d.bytes.len()})).collect::<Vec<_>>(),
+            "request_hex": hex(&j.ex.req), "response_hex": hex(&j.ex.res),
+            "expected_requests": j.base.reqs, "actual_requests": reqs, "expected_responses": j.base.ress, "actual_responses": ress,
+        })
+    });
+    let same_host = j.ex.ep.client == j.ex.ep.server;
+    ctx.bucket(&format!("pool/{tag}/w{}/{}{}", lane.workers, if j.ex.h2 { "h2" } else { "h1" }, if same_host { "/same-host" } else { "" }));
+}
+
 fn isn_choices(r: &mut Rng, len: usize) -> Vec<u32> {
     let mut v = vec![0u32, 1, 1000, 0x7fff_ffff, 0x8000_0000, r.u32()];
     for _ in 0..3 {
@@ -253,7 +342,9 @@ fn judge(ctx: &mut Ctx, j: &Judge, tag: &str, c_isn: u32, s_isn: u32, order: &[D
 }
 
 pub fn run(ctx: &mut Ctx) {
+    crate::pool::install_hooks();
     let n = ctx.scale(3_200, 100_000, 2);
+    let mut lane: Option<PoolLane> = None;
     for e in 0..n {
         if !ctx.mine(e) {
             continue;
@@ -367,7 +458,23 @@ pub fn run(ctx: &mut Ctx) {
             let ci = *r.pick(&isns);
             let si = *r.pick(&isns);
             judge(ctx, &j, "both-directions-random-order", ci, si, &o);
+            // E: the same delivery through the HTTP worker pool (HTTP analyzer's exchanges only;
+            // the lane's pool serves 64 exchanges, then one with another worker count is built)
+            if which == Which::Http && !ctx.miri() && d < ctx.scale(3, 6, 0) && ctx.rep.violation_count <= 12 {
+                if lane.as_ref().map(|l| l.used >= 64).unwrap_or(true) {
+                    if let Some(l) = lane.take() {
+                        l.shutdown();
+                    }
+                    lane = PoolLane::new(&mut r);
+                }
+                if let Some(l) = lane.as_mut() {
+                    judge_pool(ctx, l, &j, if d % 2 == 0 { "random-order" } else { "bounded-displacement" }, ci, si, &o);
+                }
+            }
         }
+    }
+    if let Some(l) = lane.take() {
+        l.shutdown();
     }
     huginn_net_tcp::verif_hooks::clock::clear();
 }
